@@ -12,18 +12,21 @@ V: RateLimitedIssuer.Evaluate on an honest request, on every single-bit change
    an AAD that leaves the request key out (the harness seals with go-hpke and
    signs with the ECDSA fork itself)."""
 import vlib
+from checks import verdicts_common as vc
 from checks import issuance_common as ic
 
 
 def run(ctx):
     ctx.model_check("MC_Issuance", "MC_RL.cfg", workers=2)
     n, cases, kinds = ic.run(ctx, "C07", ["rl"])
+    vn, vcases, vdepth = vc.run(ctx, ['rlissuer'])   # Verdicts.tla: every history of presentations on one long-lived object
     return ctx.finish({
         "traces_validated_against_impl": n,
         "evaluations": len(cases),
         "distinct_nontrivial": ic.distinct(cases),
         "rule": "a case is one Evaluate call on one (possibly altered) encoded request; distinct = distinct alteration (kind, field, bit, variant)",
         "calls_by_kind": kinds,
+        **vc.coverage(vn, vcases, vdepth),
         "samples": [ic.short(c) for c in vlib.sample(cases, 4)],
         "exhaustive": True,
         "exhaustive_part": "every bit position of an honest encoded request",
@@ -34,4 +37,6 @@ def run(ctx):
 
 
 def replay(ctx, path):
+    if vlib.json.load(open(path)).get("family") == "verdicts":
+        return vc.replay(ctx, path)
     return ctx.replay_case(path, "issuance", "Trace_Issuance", cfg="Trace_Issuance_C07.cfg")
